@@ -175,6 +175,55 @@ pub fn check(s: &'static dyn Proto, c: &Case, st: &mut Stats, _k: &KnownFindings
     ensure_eq!(ab.len(), m.npk, "shared secret length");
     st.eval(4);
 
+    // Diffie-Hellman with an arbitrary accepted peer key (not necessarily sk*G): for Curve25519
+    // almost all 32-byte strings are valid public keys, most of them outside the prime-order
+    // subgroup (torsion component or twist point), where only the clamped X25519 ladder is right
+    {
+        let mut peer = vec![0u8; m.npk];
+        c.tape.sub(5).rng().fill_bytes(&mut peer);
+        let peer = match rm::grp_of_ke(m.ke) {
+            None => peer,
+            Some(g) => {
+                // a fresh valid point: (random scalar) * G
+                let mut sc = vec![0u8; g.scalar_len()];
+                let n = sc.len();
+                if g.little_endian() {
+                    sc[..16].copy_from_slice(&peer[..16]);
+                    sc[0] |= 1;
+                } else {
+                    sc[n - 16..].copy_from_slice(&peer[..16]);
+                    sc[n - 1] |= 1;
+                }
+                g.base_mul(&sc).ok_or_else(|| Fail::new("reference base_mul failed"))?
+            }
+        };
+        if let Ok(canon) = s.pk_deserialize(&peer) {
+            ensure_eq!(canon, peer, "PublicKey round trip of an arbitrary accepted key");
+            let want = rm::ke_dh(m.ke, &a, &peer).ok_or_else(|| Fail::new("reference dh failed"))?;
+            let got = s.sk_diffie_hellman(&a, &peer).map_err(|e| Fail::new(format!("dh(a, arbitrary accepted key) failed: {e:?}")))?;
+            ensure_eq!(got, want, "Diffie-Hellman with an arbitrary accepted public key != the curve crate's (clamped X25519 / scalar multiplication)");
+            let got2 = s.kg_diffie_hellman(&a, &peer).map_err(|e| Fail::new(format!("KeGroup::dh failed: {e:?}")))?;
+            ensure_eq!(got2, want, "KeGroup::diffie_hellman with an arbitrary accepted public key");
+            st.eval(2);
+            st.label("dh:arbitrary-accepted-peer-key");
+        }
+        if m.ke == KeKind::Curve25519 {
+            // RFC 7748 section 5.2, fed through the crate's own Diffie-Hellman (scalars are clamped by X25519)
+            for (k, u, out) in [
+                ("a546e36bf0527c9d3b16154b82465edd62144c0ac1fc5a18506a2244ba449ac4", "e6db6867583030db3594c1a424b15f7c726624ec26b3353b10a903a6d0ab1c4c", "c3da55379de9c6908e94ea4df28d084f32eccf03491c71f754b4075577a28552"),
+                ("4b66e9d4d1b4673c5ad22691957d6af5c11b6421e0ea01d42ca4169e7918ba0d", "e5210f12786811d3f4b7959d0538ae2c31dbe7106fc03c3efc4cd549c715a493", "95cbde9476e8907d7aade45cb4b873f88b595a68799fa152e6f8f7647aac7957"),
+            ] {
+                let kk = rm::clamp(hex::decode(k).unwrap().try_into().unwrap()).to_vec();
+                let uu = hex::decode(u).unwrap();
+                if s.pk_deserialize(&uu).is_ok() {
+                    let got = s.sk_diffie_hellman(&kk, &uu).map_err(|e| Fail::new(format!("RFC 7748 vector: dh failed: {e:?}")))?;
+                    ensure_eq!(hex::encode(got), out.to_string(), "RFC 7748 section 5.2 vector through PrivateKey::diffie_hellman");
+                    st.eval(1);
+                }
+            }
+        }
+    }
+
     // seeded derivation
     let seed = match c.seed {
         SeedSpec::Random => {
@@ -224,7 +273,7 @@ pub const BUDGET: Budget = Budget {
 pub fn run(cfg: &RunCfg) -> (Outcome, EvidenceExtra) {
     let out = run_property(cfg, "C19", crate::suites::suites20(), BUDGET, strategy, check);
     let ev = EvidenceExtra {
-        rule: "case = two private keys (random_sk from the tape, derive_auth_keypair of a random seed, scalar 1 / order-1, clamped minimum / maximum for Curve25519) and a seed (random, all-zero, all-ones) per (OPRF suite, KE group) combination. Oracle: DH symmetric and equal to the curve crate's scalar multiplication; public_key / KeyPair constructors agree with sk*G; private/public key encodings round-trip exactly (native, bincode, JSON); derive_auth_keypair is non-zero, accepted by deserialize_sk and equals the reference DeriveDiffieHellmanKeyPair (RFC 7748 clamp for Curve25519); ServerSetup::new key pairs satisfy the same relations. evaluation = one relation checked. non-trivial = extreme key or seed, structured tape, or any Curve25519 case; distinct by hash of (suite, case)".into(),
+        rule: "case = two private keys (random_sk from the tape, derive_auth_keypair of a random seed, scalar 1 / order-1, clamped minimum / maximum for Curve25519) and a seed (random, all-zero, all-ones) per (OPRF suite, KE group) combination. Oracle: DH symmetric and equal to the curve crate's scalar multiplication, also for an arbitrary accepted peer key (for Curve25519: random 32-byte strings, i.e. mostly points with a torsion component or on the twist, plus the RFC 7748 5.2 vectors); public_key / KeyPair constructors agree with sk*G; private/public key encodings round-trip exactly (native, bincode, JSON); derive_auth_keypair is non-zero, accepted by deserialize_sk and equals the reference DeriveDiffieHellmanKeyPair (RFC 7748 clamp for Curve25519); ServerSetup::new key pairs satisfy the same relations. evaluation = one relation checked. non-trivial = extreme key or seed, structured tape, or any Curve25519 case; distinct by hash of (suite, case)".into(),
         assumptions: vec!["the curve crates' scalar multiplication is the arithmetic reference (X25519 pinned by RFC 7748 vectors)".into()],
         exhaustive: None,
         extra: Default::default(),
